@@ -199,6 +199,27 @@ class FaultyCacheDefaultExists(Cache):
         return f"FaultyCacheDefaultExists({self.name})"
 
 
+class FaultyFront(Cache):
+    """A front (write-through tier, namespacing wrapper, ...) that delegates every call to an inner FaultyCache: the miss
+    signal that reaches labrea was raised by -- and names -- the INNER cache object."""
+
+    def __init__(self, name):
+        self.name = name
+        self.inner = FaultyCache(name)
+
+    def get(self, evaluatable, options):
+        return self.inner.get(evaluatable, options)
+
+    def set(self, evaluatable, options, value):
+        self.inner.set(evaluatable, options, value)
+
+    def exists(self, evaluatable, options):
+        return self.inner.exists(evaluatable, options)
+
+    def __repr__(self):
+        return f"FaultyFront({self.name})"
+
+
 class FaultyMemoryCache(MemoryCache):
     """A backend built ON labrea's MemoryCache: get() and set() are inherited, exists() answers from an index of its
     own (a second tier / a listing that can be stale).  Same scripted faults; 'forget' evicts the entry from the
@@ -636,6 +657,8 @@ class Program:
             kw["cache"] = self.caches[n["id"]] = FaultyCacheDefaultExists(name)
         elif ck == "faulty_mc":
             kw["cache"] = self.caches[n["id"]] = FaultyMemoryCache(name)
+        elif ck == "faulty_front":
+            kw["cache"] = self.caches[n["id"]] = FaultyFront(name)
         ds = factory(fn, **kw)
         for alias, impl in n.get("overloads", []):
             self.register(ds, alias, impl, cache_kind=ck)
@@ -664,6 +687,8 @@ class Program:
             new.set_cache(FaultyCacheDefaultExists(impl["fn"]))
         elif cache_kind == "faulty_mc":
             new.set_cache(FaultyMemoryCache(impl["fn"]))
+        elif cache_kind == "faulty_front":
+            new.set_cache(FaultyFront(impl["fn"]))
         elif cache_kind == "nocache":
             new.set_cache(labrea.cache.NoCache())
         if impl.get("id"):
